@@ -25,7 +25,7 @@ EXPLANATION = (
     'soft_clip flag only selects the clipper call versus zeroing softclip_mem. '
     'NOT decided: output within [-1,1], bit-exact pass-through, sign preservation, the value 10^(g/5120) - numeric.')
 
-CONFIGS = {'quick': ['float'], 'thorough': ['float', 'fixed', 'fixed24']}
+CONFIGS = {'quick': ['float', 'fixed24'], 'thorough': ['float', 'fixed', 'fixed24']}
 
 
 def setup(rep, tier):
@@ -37,6 +37,7 @@ def setup(rep, tier):
     rep.minimum('R19.6', 1)
     rep.minimum('R19.7', 1)
     rep.minimum('R19.8', 1)
+    rep.minimum('R19.9', 1)
 
 
 def r19_12(rep, prog):
@@ -450,7 +451,50 @@ def _subkeys(k):
     return out
 
 
+# ------------------------------------------------------------------ R19.9
+def r19_9(rep, prog):
+    """integer output saturates rather than wraps - at the full scale of the sample format of the build.  The gain
+    loop of the frame decoder clamps every scaled sample; the clamp bound must be the full scale of opus_res in this
+    configuration: 32767 for the 16-bit fixed-point format, 32767 * 256 + 255 (24 bits) when ENABLE_RES24 stores the
+    samples with 8 more bits.  A 16-bit bound on 24-bit samples limits the output to 1/256 of full scale as soon as
+    any gain is set."""
+    from .. import absint, roles
+    res24 = 'ENABLE_RES24' in prog.macros
+    fixed = 'FIXED_POINT' in prog.macros
+    n = 0
+    for f in roles.frame_decoders(prog):
+        cf = cfgm.CFG(f)
+        an = None
+        for b, i, node in cf.find(lambda x: x[0] == 'assign' and sx.kind(sx.strip_paren(x[1])) == 'idx' and sx.kind(sx.strip(sx.strip_paren(x[1])[1])) == 'param' and sx.strip(sx.strip_paren(x[1])[1])[2] == 'pcm'):
+            if not any(sx.kind(y) == 'local' for y in sx.walk(node[2])):
+                continue
+            # only the gain loop: its statement reads a local computed from decode_gain
+            if not any(sx.kind(y) == 'field' and y[3] == 'decode_gain' for x in f.all_nodes() for y in sx.walk(x)):
+                continue
+            n += 1
+            rep.functions.add(f.name)
+            inst = '%s:%s clamps the gained sample at the full scale of the sample format' % (prog.config, f.name)
+            where = '%s:%s' % (f.file, sx.line(node))
+            if not fixed:
+                rep.holds('R19.9', inst, where, 'float samples: the clamp macro is the identity, conversions saturate later (C13)')
+                continue
+            if an is None:
+                an = absint.Analyzer(prog, f, call_summary=absint.inline_summary(prog), havoc_fields_on_call=False)
+            st = an.state_before_node(b, i, node)
+            v = an.ev(node[2], st) if st is not None else None
+            want = 32767 * 256 + 255 if res24 else 32767
+            if v is None or absint.is_top(v):
+                rep.violated('R19.9', inst, where, 'the stored value is not clamped (%s)' % (absint.show(v) if v else 'unknown'), key=f.name + ':gain-saturation')
+            elif absint.hi(v) < 32767 * (256 if res24 else 1) or absint.hi(v) > want:
+                rep.violated('R19.9', inst, where, 'samples are clamped to %s but the sample format of this build has a full scale of %d: with any non-zero gain the output is limited to a fraction of full scale' % (absint.show(v), want),
+                             key=f.name + ':gain-saturation')
+            else:
+                rep.holds('R19.9', inst, where, 'clamped to %s' % absint.show(v))
+    return n
+
+
 def check(rep, prog, tier):
+    r19_9(rep, prog)
     from . import softclipmem
     softclipmem.check(rep, prog, 'R19.8', 'memory')
     r19_5(rep, prog)
